@@ -689,8 +689,9 @@ Definition c17_body (toks : list (list N)) : list (list N) :=
 From TT Require Import Model.TunnelGate.
 
 Definition c01_clients : list (list N * list N) :=
-  [([117; 49], [112; 49]); ([195; 188], [112; 195; 164; 32; 115; 115])].      (* u1:p1, "ü":"pä ss" *)
-Definition c01_snicreds : list N := [115; 110; 105; 99; 114; 101; 100; 115].
+  [([117; 49], [112; 49]); ([195; 188], [112; 195; 164; 32; 115; 115]);
+   ([99; 97; 110; 97; 114; 121; 117; 115; 101; 114], [67; 70; 71; 80; 87; 45; 48; 98; 53; 101; 49; 99; 45; 99; 97; 110; 97; 114; 121])].      (* u1:p1, "ü":"pä ss", canaryuser:CFGPW-0b5e1c-canary *)
+Definition c01_snicreds : list N := [115; 110; 105; 99; 114; 101; 100; 115; 45; 55; 101; 50; 97; 57; 99; 45; 99; 97; 110; 97; 114; 121].   (* "snicreds-7e2a9c-canary" *)
 Definition c01_auth (cfg : N) : option authenticator :=
   if cfg =? 0 then None
   else if cfg =? 1 then Some (fun s => match s with SBasic t => authenticate c01_clients t | SSni _ => false end)
@@ -742,7 +743,7 @@ Definition c01_session (toks : list (list N)) : list (list N) :=
   match toks with
   | [acfg; _; sni; _] :: rest =>
     let auth := c01_auth acfg in
-    let creds := if sni =? 0 then None else if sni =? 1 then Some c01_snicreds else Some [98; 97; 100] in
+    let creds := if sni =? 0 then None else if sni =? 1 then Some c01_snicreds else Some [98; 97; 100; 99; 114; 101; 100; 115] in
     match connection_policy auth creds with
     | None => c01_dropped rest (length rest)
     | Some p => c01_reqs auth p rest (length rest)
@@ -900,5 +901,37 @@ Fixpoint c19_ops (s : sstate) (ops : list (list N)) : list (list N) :=
 Definition c19_run (toks : list (list N)) : list (list N) :=
   match toks with
   | _ :: ops => c19_ops s0 ops
+  | _ => REJECT_TOK
+  end.
+
+(* ---------------- C20 ---------------- *)
+From TT Require Import Model.Scrub.
+
+Fixpoint c20_flat (hs : list (list N * list N)) : list N :=
+  match hs with
+  | [] => []
+  | (n, v) :: r => (lenN n :: n) ++ (lenN v :: v) ++ c20_flat r
+  end.
+
+(* the http crate groups the values of a repeated name at the place of its first occurrence *)
+Fixpoint c20_group (fuel : nat) (hs : list (list N * list N)) : list (list N * list N) :=
+  match fuel with
+  | O => []
+  | S f =>
+    match hs with
+    | [] => []
+    | (n, v) :: r =>
+      (n, v) :: filter (fun h => list_eqb N.eqb (fst h) n) r
+             ++ c20_group f (filter (fun h => negb (list_eqb N.eqb (fst h) n)) r)
+    end
+  end.
+
+(* in: headers(flat) sni [proxy_basic] value.  out: scrubbed headers(flat) scrubbed_sni debug_text *)
+Definition c20_scrub (toks : list (list N)) : list (list N) :=
+  match toks with
+  | hdrs :: sni :: [pb] :: _ :: _ =>
+    let hs := c20_group (length hdrs) (c18_headers (length hdrs) hdrs) in
+    [c20_flat (scrub_headers [] hs); Scrub.scrub_sni sni;
+     source_debug (if pb =? 1 then Scrub.SBasic [] else Scrub.SSni [])]
   | _ => REJECT_TOK
   end.
